@@ -40,6 +40,13 @@ type progSet struct {
 
 var sharedWire []byte // a read-only input slice shared by concurrent decoders
 
+// every number GenerateRandomNumber returned during the run (C09/C18: locally generated numbers differ from call to call)
+var (
+	randSeenMu sync.Mutex
+	randSeen   = map[string]bool{}
+	randDup    int
+)
+
 func digest(v any) string {
 	b, _ := json.Marshal(v)
 	return string(b)
@@ -57,6 +64,49 @@ func runOp(kind string, g int, seed int64, i int) (out string) {
 	gn := gen{rng}
 	e := newEnv(seed)
 	switch kind {
+	case "encode_fail":
+		// an encode that fails (a proposal without transforms), then ordinary encodes
+		bad, _ := buildMsg(J{"ispi": be(1, 8), "rspi": be(2, 8), "maj": 2, "min": 0, "xt": 34, "flags": 8, "mid": be(0, 4),
+			"payloads": []any{J{"k": "NONCE", "data": gn.octs(8)}, J{"k": "SA", "props": []any{J{"num": 1, "proto": 1, "spi": Oct{}, "tr": []any{}}}}}})
+		_, ferr := bad.Encode()
+		big, _ := buildMsg(J{"ispi": be(1, 8), "rspi": be(2, 8), "maj": 2, "min": 0, "xt": 34, "flags": 8, "mid": be(0, 4),
+			"payloads": []any{J{"k": "V", "data": gn.octs(70000)}}})
+		_, ferr2 := big.Encode()
+		wrong := 0
+		for k := 0; k < 40; k++ {
+			m := gn.message()
+			o := actEncode(e, J{"msg": m})
+			if w, ok := o["wire"]; ok {
+				o2 := actDecode(e, J{"wire": w, "caps": false})
+				m2, err := buildMsg(m)
+				if o2["err"] == true || err != nil || !eqJ(o2["msg"], projMsg(m2)) {
+					wrong++
+				}
+			}
+		}
+		return digest(J{"failed": ferr != nil, "failed2": ferr2 != nil, "wrong": wrong})
+	case "rand_stress":
+		// many draws in a tight loop (nothing between two draws, so that goroutines really contend for the source); the
+		// numbers are compared afterwards for global distinctness (randSeen)
+		ok := true
+		xs := make([]string, 0, 64)
+		for k := 0; k < 64; k++ {
+			x, err := security.GenerateRandomNumber()
+			if err != nil || x.BitLen() <= 128 || x.BitLen() > 2048 {
+				ok = false
+				continue
+			}
+			xs = append(xs, string(x.Bytes()))
+		}
+		randSeenMu.Lock()
+		for _, x := range xs {
+			if randSeen[x] {
+				randDup++
+			}
+			randSeen[x] = true
+		}
+		randSeenMu.Unlock()
+		return digest(ok)
 	case "encode":
 		m := gn.message()
 		o := actEncode(e, J{"msg": m})
@@ -372,7 +422,12 @@ func raceMain(argv []string) int {
 		}
 		runtime.GOMAXPROCS(old)
 	}
+	if randDup > 0 {
+		res.Failures = append(res.Failures, J{"prop": "C18", "sig": "interference:random-number-repeated",
+			"what": fmt.Sprintf("%d random numbers were handed out more than once while goroutines drew concurrently", randDup), "replay": J{"fam": "race-set"}})
+	}
 	res.Steps = totalOps
+	res.Extra["random_numbers_drawn"] = len(randSeen)
 	res.Extra["goroutines_run"] = goroutines
 	res.Extra["operation_kind_pairs_overlapped"] = len(pairs)
 	res.StepsBy["C18"] = totalOps
